@@ -57,6 +57,14 @@ fn cookie(s: &Spec, now: u64) -> (Option<Vec<u8>>, Option<bool>) {
             c[bit / 8] ^= 1 << (bit % 8);
             (Some(c), Some(false))
         }
+        "bitflip2" => {
+            // two bits of the tag flipped
+            let mut c = fresh;
+            let (a, b) = ((s.n / 4096) as usize, (s.n % 4096) as usize);
+            c[a / 8] ^= 1 << (a % 8);
+            c[b / 8] ^= 1 << (b % 8);
+            (Some(c), Some(false))
+        }
         "other-secret" => {
             let mut other = sec.clone();
             other.push(b'x');
@@ -172,7 +180,7 @@ fn sp(intent: i32, secret_hex: Option<&str>, kind: &str, n: i64, expiry: u64, te
     Spec { intent, secret_hex: secret_hex.map(String::from), kind: kind.into(), n, expiry, text: text.into() }
 }
 
-fn specs(cookie_len: usize) -> Vec<Spec> {
+fn specs(cookie_len: usize, thorough: bool) -> Vec<Spec> {
     let k = common::hex(b"c02-secret");
     let k = k.as_str();
     let mut v = vec![];
@@ -208,6 +216,14 @@ fn specs(cookie_len: usize) -> Vec<Spec> {
     }
     for body in ["not-json", "empty-body", "array", "number", "string", "null", "truncated-json", "missing-user-name", "missing-extra", "extra-field"] {
         v.push(sp(3, Some(k), "body", 0, 21_600, body));
+    }
+    if thorough {
+        // every pair of tag bits
+        for a in 0..256i64 {
+            for b in (a + 1)..256 {
+                v.push(sp(3, Some(k), "bitflip2", a * 4096 + b, 21_600, ""));
+            }
+        }
     }
     // other secrets (length classes of the HMAC key)
     for sec in [vec![], vec![b'k'], vec![7u8; 64], vec![8u8; 65], vec![9u8; 200]] {
@@ -254,7 +270,7 @@ pub fn run(cli: Cli) -> ! {
         rep.finish();
     }
     let sample_cookie = valid_cookie(b"c02-secret", 5, CLIENT, CK_NAME, CK_UUID, &ck_props());
-    let all = specs(sample_cookie.len());
+    let all = specs(sample_cookie.len(), cli.tier.thorough());
     let accepted = AtomicU64::new(0);
     let rejected = AtomicU64::new(0);
     let transitions = AtomicU64::new(0);
@@ -269,6 +285,7 @@ pub fn run(cli: Cli) -> ! {
         for (k, t) in judge(s, verdict, &obs) {
             let w = match s.kind.as_str() {
                 "bitflip" | "truncate" => 1000 + s.n as u64,
+                "bitflip2" => 1_000_000 + s.n as u64,
                 _ => i as u64 % 1000,
             };
             rep.violation(Violation { key: k, text: format!("{t}; spec {}", serde_json::to_string(s).unwrap()), replay: json!({"spec": s}), weight: w });
@@ -286,7 +303,7 @@ pub fn run(cli: Cli) -> ! {
     rep.set("clock_retries", json!(retries.load(Ordering::Relaxed)));
     rep.set("cookie_length_bytes", json!(sample_cookie.len()));
     rep.set("exhaustive", json!(true));
-    rep.set("rule", json!("one connection per cookie variant: every truncation length, every single-bit flip of tag and body, other secret, 6 addresses, ages {0, e-2, e-1, e, e+1, e+2, e+10^6, -1} x expiry {0,1,60,21600}, 10 signed bodies that are not a cookie, 5 secret length classes, plus intent x secret combinations without a cookie branch. Every spec is distinct."));
+    rep.set("rule", json!("one connection per cookie variant: every truncation length, every single-bit flip of tag and body (thorough: also every pair of tag bits), other secret, 6 addresses, ages {0, e-2, e-1, e, e+1, e+2, e+10^6, -1} x expiry {0,1,60,21600}, 10 signed bodies that are not a cookie, 5 secret length classes, plus intent x secret combinations without a cookie branch. Every spec is distinct."));
     rep.sample(json!({"spec": all[0]}));
     rep.sample(json!({"spec": sp(3, Some("6b"), "age", 60, 60, ""), "expect": "accepted (age == expiry) if the wall-clock second does not tick during the run, else repeated"}));
     rep.sample(json!({"spec": sp(3, Some("6b"), "bitflip", 255, 21600, ""), "expect": "must authenticate"}));
